@@ -16,6 +16,7 @@ Components that are NOT modelled (parser, filters, fonts, interpreter, layout, c
 encryption) are covered by the fault enumeration of the harness only.
 -/
 import PdfVerif.Lemmas.Lenient
+import PdfVerif.Lemmas.LenientCodec
 
 namespace PdfVerif.Props.C13
 open PdfVerif PdfVerif.Lenient
@@ -277,5 +278,68 @@ theorem C13_fuel_get_widths (strict : Bool) (g : Graph) (seq : List Obj) (ws : L
 /-- Non-vacuity: a range far beyond the CID range is clamped, a run is copied. -/
 example : (getWidths false [] [.int 0, .int 1000000000000, .int 500, .int 7, .arr [.int 1, .int 2]]).map widthsWork
     = .ok 65538 := by rfl
+
+/-! ## Round 6 — stream decoders on damaged payloads
+
+The decoder model is `Model/Filters.lean` (C03's model of ascii85.py / runlength.py / pdftypes.PDFStream.decode);
+C03 proves round trips on VALID encodings and that the fuels suffice.  Here: for EVERY payload (truncated,
+corrupted, random) the output is no longer than a stated linear function of the input, and every error a decoder
+can raise is caught by `except _DECODE_ERRORS` of `PDFStream.decode` (tuple regenerated from pdftypes.py into
+`Gen.Filters.DECODE_ERRORS`), so that no decoder error leaves `PDFStream.decode`.  The C13 harness runs the same
+model functions through `drv_c13` (`dec …`) against the real decoders on damaged encodings and checks the same
+bounds, plus a linear bound on the executed line events, on the implementation. -/
+
+/-- RunLength: every run of the input yields at most 128 bytes; a truncated run raises StopIteration (or the
+RuntimeError Python makes of it inside the generator expression), both caught by `PDFStream.decode`. -/
+theorem C13_bound_rldecode (data : Bytes) :
+    (∀ out, Filters.rldecode data = .ok out → out.length ≤ 128 * data.length) ∧
+    (∀ e, Filters.rldecode data = .error e → e.isDecodeError = true) := by
+  refine ⟨fun out h => Filters.rldecodeAux_len _ _ _ h, fun e h => ?_⟩
+  rcases Filters.rldecodeAux_err _ _ _ h with rfl | rfl <;> decide
+
+/-- ASCIIHex: two digits per byte (+1 for the implied `0` before `>`); the only error is `binascii.Error`
+(a ValueError), caught by `PDFStream.decode`. -/
+theorem C13_bound_asciihexdecode (data : Bytes) :
+    (∀ out, Filters.asciihexdecode data = .ok out → 2 * out.length ≤ data.length + 1) ∧
+    (∀ e, Filters.asciihexdecode data = .error e → e.isDecodeError = true) := by
+  refine ⟨fun out h => Filters.asciihexdecode_len _ _ h, fun e h => ?_⟩
+  rw [Filters.asciihexdecode_err _ _ h]; decide
+
+/-- ASCII85: at most 4 bytes per input character (`z`), 16 for the padding group; the only error is ValueError. -/
+theorem C13_bound_ascii85decode (data : Bytes) :
+    (∀ out, Filters.ascii85decode data = .ok out → out.length ≤ 4 * data.length + 16) ∧
+    (∀ e, Filters.ascii85decode data = .error e → e.isDecodeError = true) := by
+  refine ⟨fun out h => Filters.ascii85decode_len _ _ h, fun e h => ?_⟩
+  unfold Filters.ascii85decode at h
+  rw [Filters.a85decode_err _ _ h]; decide
+
+/-- `PDFStream.decode` (non-STRICT), whole filter chain with predictors, on every payload and every
+Filter/DecodeParms value of the model: it returns data, or raises a `PDFException` (PDFValueError for an unknown
+predictor, PDFNotImplementedError for an unsupported filter; `outOfModel` marks CCITTFax, which C02 models) —
+never one of the builtin errors of the decoders.  Holds because every builtin error class of the model's `Err`
+is in the regenerated `_DECODE_ERRORS`: removing one from pdftypes.py breaks this proof. -/
+theorem C13_family_stream_decode (inflate : Bytes → Bytes) (f : Filters.FilterVal) (p : Filters.ParmsVal) (raw : Bytes) :
+    (∃ d, Filters.streamDecode inflate f p raw = .ok d) ∨
+    (∃ e, Filters.streamDecode inflate f p raw = .error e ∧
+      (e = .pdfValue ∨ e = .pdfNotImplemented ∨ e = .psEOF ∨ e = .outOfModel)) := by
+  unfold Filters.streamDecode
+  cases hr : Filters.streamDecodeRaw inflate f p raw with
+  | ok d => exact Or.inl ⟨d, rfl⟩
+  | error e =>
+    by_cases he : e.isDecodeError = true
+    · exact Or.inl ⟨[], by simp [he]⟩
+    · refine Or.inr ⟨e, by simp [he], ?_⟩
+      cases e <;> first | decide | exact absurd (by decide) he
+
+/-- Non-vacuity: a literal run cut short, a repeat run without its byte, an odd hex digit, a bad ASCII85 digit;
+and the bounds are attained (a repeat run of 128, `z`). -/
+example : Filters.rldecode [2, 65] = .error .runtimeError := by decide
+example : Filters.rldecode [200] = .error .stopIteration := by decide
+example : (Filters.rldecode [129, 7]).map List.length = .ok (128 : Nat) := by rfl
+example : Filters.asciihexdecode [52, 49, 52] = .error .binascii := by decide
+example : Filters.asciihexdecode [52, 62] = .ok [64] := by decide
+example : (Filters.ascii85decode [122]).map List.length = .ok (4 : Nat) := by decide
+example : Filters.ascii85decode [118] = .error .valueError := by decide
+example : Filters.streamDecode id (.name [82, 76]) .absent [2, 65] = .ok [] := by decide
 
 end PdfVerif.Props.C13
